@@ -4417,6 +4417,18 @@ EmitModVSib:
       writer.emit8(encode_sib(rm_rel->as<Mem>().shift(), rx_reg, 5));
 
       rel_offset = rm_rel->as<Mem>().offset_lo32();
+
+      // 64-bit absolute address is unencodable - DISP32 is sign-extended (or the whole address wraps at 2^32 when
+      // the index is a 32-bit register, which implies address-size override prefix).
+      if (is_64bit()) {
+        uint32_t offset_hi32 = rm_rel->as<Mem>().offset_hi32();
+        bool is_offset_int32 = offset_hi32 == uint32_t(rel_offset >> 31);
+        bool is_offset_uint32 = offset_hi32 == 0;
+
+        if (ASMJIT_UNLIKELY(!(is_offset_int32 || (is_offset_uint32 && (rm_info & kX86MemInfo_67H_X64) != 0))))
+          goto InvalidAddress64Bit;
+      }
+
       writer.emit32u_le(uint32_t(rel_offset));
     }
     // ==========|> [LABEL|RIP + INDEX + DISP32].
